@@ -52,3 +52,24 @@ Section RingConj.
   Theorem noconj_flip_term (u v sg g : K) : (u *k g) *k sg *k (v *k g) = u *k sg *k v *k (g *k g).
   Proof. ring. Qed.
 End RingConj.
+
+(* the conjugate-aware symeig_svd (d995974) IS the real model when the conjugation is the identity *)
+Lemma cjmat_id {F} (M : list (list F)) : cjmat (fun x => x) M = M.
+Proof. unfold cjmat. rewrite (map_ext _ (fun r => r)) by (intros; apply map_id). apply map_id. Qed.
+
+Theorem symeig_conj_real {F} (Op : fops F) eigh sq eps (M : list (list F)) d1 d2 n :
+  symeig_svd_conj Op (fun x => x) eigh sq eps M d1 d2 n = symeig_svd Op eigh sq eps M d1 d2 n.
+Proof.
+  unfold symeig_svd_conj, symeig_svd. destruct (svd_checks d1 d2 n) as [[k mn] mx]. rewrite !cjmat_id.
+  destruct (d2 <? d1).
+  - destruct (eigh (mmul Op d1 M (transp Op d2 M))) as [lam W]. now rewrite cjmat_id.
+  - destruct (eigh (mmul Op d2 (transp Op d2 M) M)) as [lam W]. now rewrite cjmat_id.
+Qed.
+
+(* the flip-parametric interface with the real flip IS svd_interface without mask / non_negative *)
+Theorem interface_flip_real {F} (Op : fops F) funs meth d2 (M : list (list F)) n flip ub iters sq eps :
+  svd_interface_flip (svd_flip Op) funs meth M flip ub = svd_interface Op funs meth d2 M n flip ub None None iters sq eps.
+Proof.
+  unfold svd_interface_flip, svd_interface. destruct (dispatch meth) as [f|]; [|reflexivity].
+  destruct (funs f 0 M) as [[U S] V]. destruct flip; [destruct (svd_flip Op U V ub)|]; reflexivity.
+Qed.
